@@ -151,4 +151,105 @@ theorem handshake_ok_shape (sha1 : List Byte → List Byte) (req : List Byte) (e
       · simp [hv] at h
   · simp [hg] at h
 
+theorem splitComma_ne_nil (p : List Byte) : splitComma p ≠ [] := by
+  cases p with
+  | nil => simp [splitComma]
+  | cons c r =>
+    simp only [splitComma]
+    split
+    · simp
+    · split <;> simp
+
+theorem splitComma_cons (c : Byte) (r : List Byte) (hc : c ≠ 44) :
+    ∃ h t, splitComma r = h :: t ∧ splitComma (c :: r) = (c :: h) :: t := by
+  cases hs : splitComma r with
+  | nil => exact absurd hs (splitComma_ne_nil r)
+  | cons h t => exact ⟨h, t, rfl, by simp [splitComma, hc, hs]⟩
+
+theorem prefix_in_first_segment : ∀ (n l : List Byte), (∀ c ∈ n, c ≠ 44) → n.isPrefixOf l = true →
+    ∃ h t, splitComma l = h :: t ∧ n.isPrefixOf h = true := by
+  intro n
+  induction n with
+  | nil =>
+    intro l _ _
+    cases hs : splitComma l with
+    | nil => exact absurd hs (splitComma_ne_nil l)
+    | cons h t => exact ⟨h, t, rfl, by simp⟩
+  | cons x n ih =>
+    intro l hn hp
+    cases l with
+    | nil => simp [List.isPrefixOf] at hp
+    | cons y l =>
+      simp only [List.isPrefixOf, Bool.and_eq_true, beq_iff_eq] at hp
+      obtain ⟨hxy, hp'⟩ := hp
+      subst hxy
+      have hx : x ≠ 44 := hn x (by simp)
+      obtain ⟨h', t', hs', hpre⟩ := ih l (fun c hc => hn c (by simp [hc])) hp'
+      obtain ⟨h, t, hs, hsc⟩ := splitComma_cons x l hx
+      rw [hs'] at hs
+      injection hs with e1 e2
+      subst e1; subst e2
+      exact ⟨x :: h', t', hsc, by simp [List.isPrefixOf, hpre]⟩
+
+/-- a word without commas that occurs in the header value occurs inside one of its elements -/
+theorem infix_in_segment (n : List Byte) (hn : ∀ c ∈ n, c ≠ 44) (hne : n ≠ []) :
+    ∀ p : List Byte, hasInfix n p = true → ∃ s ∈ splitComma p, hasInfix n s = true := by
+  intro p
+  induction p with
+  | nil =>
+    intro h
+    simp only [hasInfix, List.isEmpty_iff] at h
+    exact absurd h hne
+  | cons c r ih =>
+    intro h
+    simp only [hasInfix, Bool.or_eq_true] at h
+    by_cases hc : c = 44
+    · subst hc
+      have hnp : n.isPrefixOf (44 :: r) = false := by
+        cases n with
+        | nil => exact absurd rfl hne
+        | cons x n' =>
+          have : x ≠ 44 := hn x (by simp)
+          simp [List.isPrefixOf, this]
+      rw [hnp] at h
+      simp only [Bool.false_eq_true, false_or] at h
+      obtain ⟨s, hs, hi⟩ := ih h
+      exact ⟨s, by simp [splitComma, hs], hi⟩
+    · obtain ⟨hd, tl, hs, hsc⟩ := splitComma_cons c r hc
+      rcases h with h | h
+      · obtain ⟨h', t', hs', hpre⟩ := prefix_in_first_segment n (c :: r) hn h
+        rw [hsc] at hs'
+        injection hs' with e1 e2
+        subst e1
+        exact ⟨c :: hd, by rw [hsc]; simp, by simp [hasInfix, hpre]⟩
+      · obtain ⟨s, hs', hi⟩ := ih h
+        rw [hs] at hs'
+        simp only [List.mem_cons] at hs'
+        rcases hs' with rfl | hs'
+        · exact ⟨c :: s, by rw [hsc]; simp, by simp [hasInfix, hi]⟩
+        · exact ⟨s, by rw [hsc]; simp [hs'], hi⟩
+
+/-- **the selected sub-protocol is an offered token or absent**, for every offer in which the words
+"base64" / "binary" occur only as whole tokens (blanks around a token do not matter).  The code
+matches by substring (`strstr`), so without that side condition the statement is false
+(`superbase64x` is answered with `base64`) — that is the documented observation. -/
+theorem chooseProtocol_token (p : List Byte)
+    (hclean : ∀ s ∈ splitComma p, (hasInfix bBase64 s = true → stripBlanks s = bBase64) ∧
+      (hasInfix bBinary s = true → stripBlanks s = bBinary)) :
+    (chooseProtocol (some p)).2 = [] ∨ (chooseProtocol (some p)).2 ∈ offerTokens p := by
+  simp only [chooseProtocol]
+  by_cases h1 : hasInfix bBase64 p = true
+  · obtain ⟨s, hs, hi⟩ := infix_in_segment bBase64 (by decide) (by decide) p h1
+    right
+    simp only [h1, if_true, offerTokens, List.mem_map]
+    exact ⟨s, hs, (hclean s hs).1 hi⟩
+  · by_cases h2 : hasInfix bBinary p = true
+    · obtain ⟨s, hs, hi⟩ := infix_in_segment bBinary (by decide) (by decide) p h2
+      right
+      simp only [h1, h2, if_true, offerTokens, List.mem_map]
+      exact ⟨s, hs, (hclean s hs).2 hi⟩
+    · left; simp [h1, h2]
+
+theorem chooseProtocol_none : (chooseProtocol none).2 = [] := rfl
+
 end VncModel.Ws
